@@ -1,4 +1,5 @@
 pub mod c01;
+pub mod c02;
 pub mod c07;
 pub mod c08;
 pub mod c09;
